@@ -62,7 +62,13 @@ def scriptMech (script : List StepRes) (offset : Nat) : Mech := fun hist =>
   | none => { kind := .otherErr }
 
 def parseCEv (s : String) : Option CEv :=
-  if s == "f" then some .failure
+  if s == "f" then some (.failure .defined)
+  else if s == "f0" then some (.failure .empty)
+  else if s == "fu" then some (.failure .unknown)
+  else if s == "ft" then some (.failure .textOnly)
+  else if s == "fm" then some (.failure .several)
+  else if s == "fn" then some (.failure .foreign)
+  else if s == "fx" then some (.failure .malformed)
   else if s == "o" then some .other
   else if s == "n" then some .otherNs
   else if s == "w" then some .space
@@ -72,7 +78,7 @@ def parseCEv (s : String) : Option CEv :=
 
 def parseSEv (s : String) : Option SEv :=
   if s == "B" then some .abort
-  else if s == "F" then some .failure
+  else if s == "F" || s == "F0" || s == "Fu" || s == "Ft" then some .failure
   else if s == "O" then some .other
   else if s == "N" then some .otherNs
   else if s == "W" then some .space
